@@ -9,11 +9,14 @@ package remote
 // only "error, never a crash or a hang" is checked.
 
 import (
+	"bytes"
 	"context"
 	"fmt"
 	"io"
+	"net/http"
 	"strconv"
 	"strings"
+	"sync"
 	"testing"
 	"time"
 
@@ -72,12 +75,194 @@ func (f *verifC04Fetcher) genID(reg region) string {
 	return fmt.Sprintf("%d-%d", reg.b, reg.e)
 }
 
+// ---- registry personalities: a scripted http.RoundTripper under the REAL httpFetcher -------------
+
+// verifC04Srv answers every request according to its personality, counts the requests and refuses to
+// answer after verifC04ReqCap of them (so that a request storm ends quickly and is reported).
+type verifC04Srv struct {
+	pers   string
+	size   int64
+	mu     sync.Mutex
+	nProbe int
+	nRange int
+	nOther int
+	capped bool
+}
+
+const verifC04ReqCap = 200
+
+// verifC04ReqBound: the code makes at most 2 ranged GETs + 1 location probe per fetch and 1 probe +
+// 1 refresh per check; a ReadAt/Cache is one fetch (plus at most one retry of fetchRange).
+const verifC04ReqBound = 8
+
+func (s *verifC04Srv) total() int { return s.nProbe + s.nRange + s.nOther }
+
+func verifC04Resp(req *http.Request, code int, hdr map[string]string, body []byte) *http.Response {
+	h := http.Header{}
+	for k, v := range hdr {
+		h.Set(k, v)
+	}
+	return &http.Response{StatusCode: code, Status: fmt.Sprintf("%d %s", code, http.StatusText(code)), Header: h,
+		Body: io.NopCloser(bytes.NewReader(body)), ContentLength: int64(len(body)), Request: req, Proto: "HTTP/1.1", ProtoMajor: 1, ProtoMinor: 1}
+}
+
+func (s *verifC04Srv) RoundTrip(req *http.Request) (*http.Response, error) {
+	s.mu.Lock()
+	defer s.mu.Unlock()
+	if err := req.Context().Err(); err != nil {
+		return nil, err
+	}
+	if s.total() >= verifC04ReqCap {
+		s.capped = true
+		return nil, fmt.Errorf("verif: request cap reached")
+	}
+	rng := req.Header.Get("Range")
+	probe := rng == "bytes=0-1"
+	switch {
+	case req.Method != "GET":
+		s.nOther++
+	case probe:
+		s.nProbe++
+	default:
+		s.nRange++
+	}
+	// a healthy answer to a ranged GET: the first range as a single part, or the whole blob
+	healthy := func() *http.Response {
+		var b, e int64
+		if n, _ := fmt.Sscanf(strings.SplitN(strings.TrimPrefix(rng, "bytes="), ",", 2)[0], "%d-%d", &b, &e); n == 2 && !strings.Contains(rng, ",") && b >= 0 && e >= b && e < s.size {
+			return verifC04Resp(req, 206, map[string]string{"Content-Range": fmt.Sprintf("bytes %d-%d/%d", b, e, s.size), "Content-Type": "application/octet-stream"}, make([]byte, e-b+1))
+		}
+		return verifC04Resp(req, 200, map[string]string{"Content-Length": fmt.Sprint(s.size)}, make([]byte, s.size))
+	}
+	okProbe := func() *http.Response {
+		return verifC04Resp(req, 206, map[string]string{"Content-Range": fmt.Sprintf("bytes 0-1/%d", s.size)}, []byte{0, 0})
+	}
+	self := req.URL.String()
+	switch s.pers {
+	case "healthy":
+		if probe {
+			return okProbe(), nil
+		}
+		return healthy(), nil
+	case "403-forever": // every ranged GET is refused, the location probe stays healthy
+		if probe {
+			return okProbe(), nil
+		}
+		return verifC04Resp(req, 403, nil, nil), nil
+	case "403-once":
+		if probe {
+			return okProbe(), nil
+		}
+		if s.nRange == 1 {
+			return verifC04Resp(req, 403, nil, nil), nil
+		}
+		return healthy(), nil
+	case "400-forever":
+		if probe {
+			return okProbe(), nil
+		}
+		return verifC04Resp(req, 400, nil, nil), nil
+	case "alt-403-400":
+		if probe {
+			return okProbe(), nil
+		}
+		if s.nRange%2 == 1 {
+			return verifC04Resp(req, 403, nil, nil), nil
+		}
+		return verifC04Resp(req, 400, nil, nil), nil
+	case "alt-400-403":
+		if probe {
+			return okProbe(), nil
+		}
+		if s.nRange%2 == 1 {
+			return verifC04Resp(req, 400, nil, nil), nil
+		}
+		return verifC04Resp(req, 403, nil, nil), nil
+	case "probe-redirect-self": // the probe is answered 307 to the very same URL, ranged GETs are refused
+		if probe {
+			return verifC04Resp(req, 307, map[string]string{"Location": self}, nil), nil
+		}
+		return verifC04Resp(req, 403, nil, nil), nil
+	case "redirect-everything": // 307 to itself whatever is asked
+		return verifC04Resp(req, 307, map[string]string{"Location": self}, nil), nil
+	case "403-everything":
+		return verifC04Resp(req, 403, nil, nil), nil
+	case "probe-403": // ranged GETs are refused and so is the probe
+		if probe {
+			return verifC04Resp(req, 403, nil, nil), nil
+		}
+		return verifC04Resp(req, 403, nil, nil), nil
+	case "500-forever":
+		if probe {
+			return okProbe(), nil
+		}
+		return verifC04Resp(req, 500, nil, nil), nil
+	case "206-no-content-range":
+		if probe {
+			return okProbe(), nil
+		}
+		return verifC04Resp(req, 206, map[string]string{"Content-Type": "application/octet-stream"}, make([]byte, 4)), nil
+	case "206-bad-multipart":
+		if probe {
+			return okProbe(), nil
+		}
+		return verifC04Resp(req, 206, map[string]string{"Content-Type": "multipart/byteranges; boundary=x"}, []byte("--x\r\nContent-Range: bytes 5-2/3\r\n\r\nabc\r\n--x--\r\n")), nil
+	}
+	return verifC04Resp(req, 404, nil, nil), nil
+}
+
+var verifC04Personalities = []string{"healthy", "403-forever", "403-once", "400-forever", "alt-403-400", "alt-400-403", "probe-redirect-self",
+	"redirect-everything", "403-everything", "probe-403", "500-forever", "206-no-content-range", "206-bad-multipart"}
+
+// verifC04Server: "srv <personality> <singleRange 0|1> <size> <chunk> <off> <len>": blob.ReadAt, blob.Cache and
+// blob.Check through the real httpFetcher; the number of requests each of them causes is bounded.
+func verifC04Server(w []string, in *verifc04.Input, rec *verifc04.Rec) {
+	if len(w) != 7 {
+		rec.Fail("harness-bad-op", in.Op)
+		return
+	}
+	var v [4]int64
+	for i := 0; i < 4; i++ {
+		x, err := strconv.ParseInt(w[3+i], 10, 64)
+		if err != nil {
+			rec.Fail("harness-bad-op", in.Op)
+			return
+		}
+		v[i] = x
+	}
+	run := func(target string, f func(bl *blob) error) {
+		srv := &verifC04Srv{pers: w[1], size: v[0]}
+		u := "https://reg.test/v2/img/blobs/sha256:0000"
+		hf := &httpFetcher{url: u, blobURL: u, tr: srv, timeout: 3 * time.Second, singleRange: w[2] == "1"}
+		bl := makeBlob(hf, v[0], v[1], v[1], cache.NewMemoryCache(), time.Now(), time.Hour, nil, 3*time.Second)
+		rec.Try(target, func() error { return f(bl) })
+		if n := srv.total(); n > verifC04ReqBound {
+			rec.Fail("request-storm:"+w[1], fmt.Sprintf("%s caused %d requests (%d ranged GETs, %d probes, cap reached: %v); at most %d are expected",
+				target, n, srv.nRange, srv.nProbe, srv.capped, verifC04ReqBound))
+		}
+	}
+	if v[2] >= 0 && v[2] < v[0] && v[3] >= 0 && v[3] <= 1<<20 {
+		run("srv.ReadAt", func(bl *blob) error {
+			_, err := bl.ReadAt(make([]byte, v[3]), v[2])
+			return err
+		})
+	}
+	run("srv.Cache", func(bl *blob) error { return bl.Cache(0, v[3]) })
+	run("srv.Check", func(bl *blob) error {
+		bl.lastCheck = time.Time{} // force the check
+		bl.checkInterval = 0
+		return bl.Check()
+	})
+}
+
 func verifC04Run(in *verifc04.Input, rec *verifc04.Rec) {
 	if in.Kind != "range" {
 		return
 	}
 	w := strings.Fields(in.Op)
 	switch w[0] {
+	case "srv":
+		verifC04Server(w, in, rec)
 	case "hdr":
 		rec.Try("parseRange", func() error {
 			_, _, err := parseRange(string(in.Data))
@@ -146,6 +331,20 @@ func TestVerifC04(t *testing.T) {
 	inputs = append(inputs,
 		verifc04.Input{Class: "fixed:26d4364:reply-repeats-unrequested-chunk", Kind: "range", Op: "blob 100 1 37 14 7:7:1 5:7:3"},
 		verifc04.Input{Class: "scenario:reply-exact", Kind: "range", Op: "blob 100 10 35 10 30:49:20"})
+	// registry personalities under the real httpFetcher: every personality, both range modes, hand-written
+	// (one child each, never skipped) and then with generated sizes
+	for _, p := range verifC04Personalities {
+		for _, sr := range []int{0, 1} {
+			inputs = append(inputs, verifc04.Input{Class: fmt.Sprintf("scenario:registry:%s:single=%d", p, sr), Kind: "range",
+				Op: fmt.Sprintf("srv %s %d 100 10 35 30", p, sr)})
+		}
+	}
+	for i := 0; i < n/4; i++ {
+		size := []int64{1, 7, 64, 100, 1000}[r.Intn(5)]
+		inputs = append(inputs, verifc04.Input{Class: "range:registry", Kind: "range",
+			Op: fmt.Sprintf("srv %s %d %d %d %d %d", verifC04Personalities[r.Intn(len(verifC04Personalities))], r.Intn(2), size,
+				[]int64{1, 3, 8, 10}[r.Intn(4)], r.Range(0, size-1), r.Range(0, 64))})
+	}
 	hdrs := []string{"", "bytes", "bytes 0-0/1", "bytes 5-2/10", "bytes 10-20/5", "bytes 0-18446744073709551615/18446744073709551616",
 		"bytes 99999999999999999999-1/2", "bytes 0-1/*", "bytes 0-1/99999999999999999999999", "bytes -1-2/3", "bytes 0--1/3", "BYTES 0-1/2",
 		"bytes 0-1/2 bytes 3-4/5", "bytes 9223372036854775807-9223372036854775807/9223372036854775807", "bytes 00000000000000000001-2/3", "bytes 1-2/\\*"}
